@@ -153,7 +153,7 @@ func mutatePolicy(r interface{ Intn(int) int }, p *PolicySpec) *PolicySpec {
 	if p == nil || len(p.Terms) == 0 {
 		return nil
 	}
-	q := &PolicySpec{}
+	q := &PolicySpec{Split: p.Split}
 	for _, t := range p.Terms {
 		nt := TermSpec{Actions: append([]ActionSpec(nil), t.Actions...)}
 		if t.Match != nil {
